@@ -490,7 +490,10 @@ impl<'a> World<'a> {
                         }
                     }
                 }
-                Err(Malformed::Padding) => self.allowed = None,
+                // padding is neither a start nor a complete packet: the nearest preceding one is still the same. (A
+                // frame ends where the application resets the label memory - the `reset` op -, not where padding is
+                // seen: a receiver that keeps its label across padding resolves exactly as the statement says.)
+                Err(Malformed::Padding) => {}
                 // anything the harness parser cannot classify leaves the set unchanged... but the receiver
                 // may legitimately have cleared its memory; a later resolution is then impossible, never wrong.
                 Err(_) => {}
